@@ -1,7 +1,7 @@
 (* C03 -- Verilog write -> read round trip.  Statements only; proofs in Proofs/VerilogProofs.v. *)
 From CG Require Import Verilog.ExprParse.
 From stdpp Require Import strings gmap sets.
-From CG Require Import Types Sem Model.Lint Api Verilog.Ast Verilog.Read Verilog.Write Proofs.VerilogProofs.
+From CG Require Import Types Sem Cases Model.Lint Api Verilog.Ast Verilog.Read Verilog.Write Proofs.VerilogProofs.
 Open Scope string_scope.
 
 (* well-formed circuits of the property: lint-clean (blackbox pins may be open), names usable as identifier tokens,
@@ -26,3 +26,46 @@ Definition roundtrip_equiv_full : Prop := ∀ C b π m rsv,
 Definition roundtrip_identical_full : Prop := ∀ C π m rsv,
   wf_rt C → no_consts (c_g C) → write C false π = Ok m → list_to_set (module_ids m) ⊆ rsv →
   read rsv (bbdefs_of C) m = Ok C.
+
+(* proved parts *)
+(* the right-hand side the writer emits for a gate denotes the gate's function of its operands: every gate type, every
+   number of operands, every operand order *)
+Theorem C03_beh_expr_gate_val : ∀ t f r v x, t ∈ gate_types → (t = Buf ∨ t = Not → r = []) → NoDup (f :: r) →
+  sem_cond v x (beh_expr t f r) = gate_val t v (list_to_set (f :: r)).
+Proof. exact beh_expr_gate_val. Qed.
+Print Assumptions C03_beh_expr_gate_val.
+Theorem C03_const_expr_sem : ∀ t v x, t ∈ const_types → sem_cond v x (const_expr t) = match t with C0 => false | C1 => true | _ => x end.
+Proof. exact const_expr_sem. Qed.
+Print Assumptions C03_const_expr_sem.
+(* roundtrip_equiv, one gate of the assign style: the node the reader makes for the emitted expression carries the gate's
+   function.  Missing for the full statement: the module-level composition (the relabel of that node to the lvalue,
+   declarations, primitive instances, blackbox instances, output marking) *)
+Theorem C03_roundtrip_gate_partial : ∀ k st t f r st' n, t ∈ gate_types → (t = Buf ∨ t = Not → r = []) → NoDup (f :: r) →
+  c_cond k st (beh_expr t f r) = Ok (st', n) →
+  st.1 ⊆ st'.1 ∧ ∀ v, ties_ok k st.1 → consistent st'.1 v → v n = gate_val t v (list_to_set (f :: r)).
+Proof. exact roundtrip_gate_expr. Qed.
+Print Assumptions C03_roundtrip_gate_partial.
+(* the reader never accepts a module whose port list disagrees with its declarations (shared with C02) *)
+Theorem C03_port_mismatch_rejected : ∀ rsv bbs m C, read rsv bbs m = Ok C → ports_match m = true.
+Proof. exact read_rejects_port_mismatch. Qed.
+Print Assumptions C03_port_mismatch_rejected.
+
+(* non-vacuity: a circuit with a blackbox, a constant and an escaped name satisfies wf_rt, is written and read back *)
+Definition ex_C : Circuit := Cases.mk "top"
+  [("a", Input, false, []); ("\b[0]", Input, true, []); ("k", C1, false, []);
+   ("g", Nand, true, ["a"; "\b[0]"; "k"]); ("ff0.d", BbIn, false, ["g"]); ("ff0.clk", BbIn, false, []);
+   ("ff0.q", BbOut, false, []); ("q", Buf, true, ["ff0.q"])]
+  [("ff0", Cases.mk_bb "ff" ["clk"; "d"] ["q"])].
+Definition ex_ord : worder :=
+  {| o_ins := ["a"; "\b[0]"]; o_outs := ["q"; "g"; "\b[0]"]; o_bbs := [("ff0", ["d"; "clk"], ["q"])];
+     o_nodes := ["k"; "q"; "g"]; o_fi := [("k", []); ("q", []); ("g", ["k"; "a"; "\b[0]"])] |}.
+Example C03_ex_wf : lint ex_C rt_flags = Ok ().
+Proof. vm_compute. reflexivity. Qed.
+Example C03_ex_roundtrip :
+  match write ex_C true ex_ord with
+  | Ok m => match read (list_to_set (module_ids m)) (bbdefs_of ex_C) m with
+            | Ok C' => bool_decide (c_bbs C' = c_bbs ex_C) && bool_decide (inputs (c_g C') = inputs (c_g ex_C))
+                       && bool_decide (outputs (c_g C') = outputs (c_g ex_C))
+            | _ => false end
+  | _ => false end = true.
+Proof. vm_compute. reflexivity. Qed.
